@@ -184,6 +184,8 @@ class Exec:
 
     def subscript(self, base, sl, st, node):
         line = getattr(node, "lineno", 0)
+        if isinstance(base, Cursor):
+            base = self.deref(base, st)
         if isinstance(sl, ast.Slice):
             if sl.step is not None:
                 raise Unsupported("slice step")
@@ -361,7 +363,24 @@ class Exec:
             left = right
         return V(BOOL, z3.And(*res) if len(res) > 1 else res[0])
 
+    def cursor_spec(self, name):
+        cfg = (getattr(self.ctx.contract, "cursors", None) or {}).get(name)
+        if cfg is None:
+            raise Unsupported("%s is not a declared cursor" % name)
+        return cfg
+
+    def deref(self, cur, st, name=None):
+        """the sub-dict a cursor points at: <get>(root, path)"""
+        cfg = None
+        for n, c in (getattr(self.ctx.contract, "cursors", None) or {}).items():
+            if c["root"] == cur.root:
+                cfg = c
+        getf = lift_ns(self.ctx.ns[cfg["get"]])
+        return getf.call(self, [st.env[cur.root], cur.path], {}, st, None)
+
     def compare(self, op, a, b, st, node=None):
+        if isinstance(b, Cursor):
+            b = self.deref(b, st)
         a, b = lift(a), lift(b)
         if isinstance(op, (ast.Eq, ast.Is)):
             return eq(a, b)
@@ -813,6 +832,14 @@ class Exec:
         if isinstance(target, (ast.Tuple, ast.List)):
             self.bind_target(target, val, st)
             return
+        if isinstance(target, ast.Subscript) and isinstance(target.value, ast.Name) and isinstance(st.env.get(target.value.id), Cursor):
+            cur = st.env[target.value.id]
+            cfg = self.cursor_spec(target.value.id)
+            root = st.env[cur.root]
+            k = coerce(self.ev(target.slice, st), root.ty.key)
+            setf = lift_ns(self.ctx.ns[cfg["set"]])
+            st.env[cur.root] = setf.call(self, [root, cur.path, k, coerce(val, root.ty)], {}, st, None)
+            return
         if isinstance(target, ast.Subscript):
             base = lift(self.ev(target.value, st))
             line = target.lineno
@@ -927,7 +954,7 @@ def lift_ns(x):
     from .dsl import SpecFn, Opaque, Lazy
     if isinstance(x, Lazy):
         x = x.get()
-    if isinstance(x, (V, PyTup, PyFn, PyConstObj, DictItems, PyDict, PyIte, PyCat)):
+    if isinstance(x, (V, PyTup, PyFn, PyConstObj, DictItems, PyDict, PyIte, PyCat, Cursor)):
         return x
     if isinstance(x, SpecFn):
         return PyFn(x.name, x.sym_call)
@@ -1106,7 +1133,14 @@ def _b_dfn(name):
     return call
 
 
+def _b_cpath(ex, args, kwargs, st, node):
+    if isinstance(args[0], Cursor):
+        return args[0].path
+    raise Unsupported("cpath of a non-cursor")
+
+
 BUILTINS = {
+    "cpath": PyFn("cpath", _b_cpath),
     "dhead": PyFn("dhead", _b_dhead), "dtail": PyFn("dtail", _b_dtail), "dcons": PyFn("dcons", _b_dcons),
     "dput": PyFn("dput", _b_dput), "odict": PyFn("odict", _b_odict), "dapp": PyFn("dapp", _b_dapp),
     "dhas": PyFn("dhas", _b_dhas),
